@@ -150,11 +150,11 @@ class Rules:
                 chk.ob(name, self.repo.func(soft_for[0]), None, 'matcher of rule %s does not recognise this (renamed / restructured) form: %s; '
                        'its obligations are implied by the proven equality with the reference form' % (name, e), True, construct='implied ' + name, nontrivial=False)
             else:
-                chk.error(name, str(e))
+                chk.error(name, str(e), matcher=True)
         except Exception as e:  # a crash of one rule is an analysis error of that rule, never a verdict
             import traceback
             tb = traceback.extract_tb(e.__traceback__)[-1]
-            self.chk.error(name, 'internal %s: %s (%s:%d)' % (type(e).__name__, e, tb.filename.split('/')[-1], tb.lineno))
+            chk.error(name, 'internal %s: %s (%s:%d)' % (type(e).__name__, e, tb.filename.split('/')[-1], tb.lineno), matcher=True)
 
 
 def need(cond, msg):
